@@ -74,7 +74,9 @@ enum Edit {
 }
 
 fn edit() -> impl Strategy<Value = Edit> {
-    let ch = any::<u16>().prop_map(|s| EDIT_CHARS[pick_idx(s, EDIT_CHARS.len())]);
+    // the hand-picked separators and hostile characters, or any ASCII byte at all (a character
+    // class written as a byte range can be off by one character anywhere in the table)
+    let ch = prop_oneof![any::<u16>().prop_map(|s| EDIT_CHARS[pick_idx(s, EDIT_CHARS.len())]), (0u8..128).prop_map(|b| b as char)];
     prop_oneof![ch.clone().prop_map(Edit::Insert), Just(Edit::Delete), ch.prop_map(Edit::Replace), Just(Edit::Duplicate)]
 }
 
@@ -220,6 +222,50 @@ fn case_for(ty: &'static str) -> BoxedStrategy<IdCase> {
     ]
     .prop_map(move |(s, origin)| IdCase { ty: ty.to_owned(), s, origin: origin.to_owned() })
     .boxed()
+}
+
+/// Fixed valid identifiers per type (one plain, one using the rarer parts of the grammar), each
+/// with every ASCII byte replacing or inserted before every character.
+fn ascii_edit_space() -> impl Iterator<Item = IdCase> {
+    const BASES: &[(&str, &[&str])] = &[
+        ("user", &["@alice:example.org", "@a.b_c=d-e/f+1:[::1]:8448"]),
+        ("room", &["!abcDEF:example.org", "!opaque"]),
+        ("alias", &["#room:example.org", "#a b:1.2.3.4:80"]),
+        ("room_or_alias", &["!abc:example.org", "#abc:example.org"]),
+        ("event", &["$ev1:example.org", "$Rqnc-F-dvnEYJTyHq_iKxU2bZ1CI92-kuZq3a5lr5Zg", "$acR1l0raoZnm60CBwAVgqbZqoO/mYU81xysh1u7XcJk"]),
+        ("server", &["example.org", "a-b.c:8448", "[2001:db8::1]:80", "1.2.3.4"]),
+        ("mxc", &["mxc://example.org/Ab_9-z", "mxc://[::1]:8448/a"]),
+        ("server_signing_key", &["ed25519:Ab_9"]),
+        ("signing_key_any", &["ed25519:Ab_9"]),
+        ("device_key", &["curve25519:DEVICEID", "ed25519:dev_1"]),
+        ("cross_signing_key", &["ed25519:Yp2oZ+pYFmQ0Ya/3kNxSuE8DX1UfL8R0gNtsyFmAolc"]),
+        ("one_time_key", &["signed_curve25519:AAAAHQ"]),
+        ("room_version", &["1", "11", "org.example.v1"]),
+        ("client_secret", &["abc.DEF=_-1"]),
+        ("session", &["abc.DEF=_-1"]),
+        ("key_version", &["Ab_9"]),
+        ("b64pk", &["Yp2oZ+pYFmQ0Ya/3kNxSuE8DX1UfL8R0gNtsyFmAolc"]),
+    ];
+    BASES.iter().filter(|(ty, _)| TYPES.contains(ty)).flat_map(|(ty, bases)| {
+        bases.iter().flat_map(move |base| {
+            let chars: Vec<char> = base.chars().collect();
+            (0..=chars.len()).flat_map(move |pos| {
+                let chars = chars.clone();
+                (0u8..128).flat_map(move |b| {
+                    let mut out = vec![];
+                    let mut ins = chars.clone();
+                    ins.insert(pos, b as char);
+                    out.push(IdCase { ty: (*ty).to_owned(), s: ins.into_iter().collect(), origin: "ascii_insert".to_owned() });
+                    if pos < chars.len() {
+                        let mut rep = chars.clone();
+                        rep[pos] = b as char;
+                        out.push(IdCase { ty: (*ty).to_owned(), s: rep.into_iter().collect(), origin: "ascii_replace".to_owned() });
+                    }
+                    out
+                })
+            })
+        })
+    })
 }
 
 pub fn id_case() -> BoxedStrategy<IdCase> {
@@ -724,6 +770,8 @@ pub fn run(ck: &mut Check) {
     ck.floor("ids", "non_ascii", 1000);
     ck.floor("ids", "rejected_mutant", 1000);
     ck.floor("ids", "accepted_mutant", 1000);
+    // every single-byte ASCII replacement and insertion at every position of fixed valid ids
+    ck.exhaustive("ascii_single_edits", true, |s, n| ascii_edit_space().skip(s as usize).step_by(n as usize), oracle);
     let n = ck.n(100_000, 2_000_000);
     ck.prop("constructors", n, ctor_case, ctor_oracle);
     ck.floor("constructors", "ctor_ok", 1000);
